@@ -5,7 +5,7 @@
 set -u
 prop=$1; k=$2; ddir=$3; needs=$4
 wt=/tmp/seed-$prop
-id=${prop}_$k
+id=${SEEDID:-${prop}_$k}
 export GOFLAGS=-mod=mod GOPROXY=off GOSUMDB=off GOTOOLCHAIN=local
 cd $wt || exit 2
 mv out /tmp/seedout-$prop 2>/dev/null
